@@ -31,6 +31,60 @@ def rebuilds(ctx, f, n, depth=2) -> bool:
     return False
 
 
+def update_restorer_refs(ctx, rule):
+    from engine.absint import Interp, Obj, Unsupported
+    """`with obj.param.update(...)` relinks on exit whatever form the values are given in (shared by R08.f / R04.f)."""
+    # `with obj.param.update(...)`: whatever form the values are given in, the restorer is told the
+    # reference of every given parameter that is currently linked, so leaving the block relinks it
+    up = ctx.repo.method(PARAMETERS, "update")
+    ra, rb = Obj("ref_of_a"), Obj("pending_async_ref_of_b")
+    va, vb, vc = Obj("value_a"), Obj("value_b"), Obj("value_c")
+    UNDEF = Obj("Undefined")
+    forms = {
+        "update(a=.., b=.., c=..)": (UNDEF, {"a": va, "b": vb, "c": vc}),
+        "update({a, b, c})": ({"a": va, "b": vb, "c": vc}, {}),
+        "update({c}, a=.., b=..)": ({"c": vc}, {"a": va, "b": vb}),
+        "update({a}, b=..)": ({"a": va}, {"b": vb}),
+        "update([(a, ..), (b, ..)])": ([("a", va), ("b", vb)], {}),
+        "update([(c, ..)], a=..)": ([("c", vc)], {"a": va}),
+    }
+    n_f, badf = 0, []
+    for desc, (arg, kw) in forms.items():
+        seen = {}
+
+        def hook2(fn, args, kwargs):
+            if fn == "_ParametersRestorer":
+                seen["refs"] = kwargs.get("refs")
+                return Obj("restorer")
+            if fn.endswith("._update"):
+                return {}
+            if fn == "self_.values":
+                return {"a": Obj("current_a"), "b": Obj("current_b"), "c": Obj("current_c")}
+            return NotImplemented
+        inst = Obj("target", _param__private=Obj("private", refs={"a": ra}, async_refs={"b": rb}))
+        ns = Obj("ns", self=inst)
+        it = Interp(ctx.hier, call_hook=hook2, globals={"Undefined": UNDEF}, strict_self_calls=True)
+        try:
+            outs = it.run_all(up, {"self_": ns, "arg": arg, "kwargs": dict(kw)})
+        except Unsupported as e:
+            raise AnalysisError("absint cannot interpret Parameters.update: %s -- the restorer rule cannot decide" % e)
+        n_f += 1
+        if len(outs) != 1 or outs[0].imprecise or outs[0].kind != "return":
+            raise AnalysisError("absint imprecise on Parameters.update (%s): %s -- the restorer rule cannot decide" % (desc, outs[0].notes[:2] if outs else "no outcome"))
+        given = set(kw) | (set(arg) if isinstance(arg, dict) else {k for k, _ in arg} if isinstance(arg, list) else set())
+        want = {k: r for k, r in (("a", ra), ("b", rb)) if k in given}
+        got = seen.get("refs")
+        if not isinstance(got, dict) or set(got) != set(want) or any(got[k] is not want[k] for k in want):
+            badf.append((desc, sorted(got) if isinstance(got, dict) else got, sorted(want)))
+    ctx.abstract_cases += n_f
+    if badf:
+        ctx.fail(rule, up, up.node, "`with obj.param.%s` remembers the links of %s, specification %s (a is linked, b has a pending asynchronous reference): the parameter overridden "
+                 "for the block gets its old plain value back on exit but not its link" % badf[0], key=up.qualname + "::restorer-refs",
+                 input="t = T(x=s.param.v); with t.param.update({'y': 1}, x=5): pass; s.v = 7 -> t.x stays stale")
+    else:
+        ctx.ok(rule, up, up.node, "%d call forms (keywords, dict, dict+keywords, pairs, pairs+keywords): the restorer receives the reference of every given linked parameter" % n_f)
+
+
 def run(ctx):
     ctx.rule("R08.x", "context-manager model: _batch_call_watchers, batch_call_watchers, discard_events, _syncing and edit_constant interpreted abstractly with the body of the `with` supplied at the `yield` (62 cases: entry state x body ends normally / raises x nesting x queues replaced in the body x Parameter copies made in the body): flag, queues, syncing set and constant flags are, after the block, what they were before; the flush runs iff outermost, after the restore, also when the body raised", floor=1)
     ctx.rule("R08.r", "update-context exit: _ParametersRestorer.__exit__ interpreted abstractly (3 cases) assigns back every recorded previous value -- also one identical to the current value -- and every remembered reference in one update, and forgets the record, also when that update raises", floor=1)
@@ -275,56 +329,7 @@ def run(ctx):
     else:
         ctx.ok("R08.e", sr, sr.node, "%d/%d event sets: exactly the links with a matching dependency are re-resolved (a link on another owner with the same name is not)" % (n_cases, n_cases))
 
-    # ------------------------------------------------------------- R08.f
-    # `with obj.param.update(...)`: whatever form the values are given in, the restorer is told the
-    # reference of every given parameter that is currently linked, so leaving the block relinks it
-    up = ctx.repo.method(PARAMETERS, "update")
-    ra, rb = Obj("ref_of_a"), Obj("pending_async_ref_of_b")
-    va, vb, vc = Obj("value_a"), Obj("value_b"), Obj("value_c")
-    UNDEF = Obj("Undefined")
-    forms = {
-        "update(a=.., b=.., c=..)": (UNDEF, {"a": va, "b": vb, "c": vc}),
-        "update({a, b, c})": ({"a": va, "b": vb, "c": vc}, {}),
-        "update({c}, a=.., b=..)": ({"c": vc}, {"a": va, "b": vb}),
-        "update({a}, b=..)": ({"a": va}, {"b": vb}),
-        "update([(a, ..), (b, ..)])": ([("a", va), ("b", vb)], {}),
-        "update([(c, ..)], a=..)": ([("c", vc)], {"a": va}),
-    }
-    n_f, badf = 0, []
-    for desc, (arg, kw) in forms.items():
-        seen = {}
-
-        def hook2(fn, args, kwargs):
-            if fn == "_ParametersRestorer":
-                seen["refs"] = kwargs.get("refs")
-                return Obj("restorer")
-            if fn.endswith("._update"):
-                return {}
-            if fn == "self_.values":
-                return {"a": Obj("current_a"), "b": Obj("current_b"), "c": Obj("current_c")}
-            return NotImplemented
-        inst = Obj("target", _param__private=Obj("private", refs={"a": ra}, async_refs={"b": rb}))
-        ns = Obj("ns", self=inst)
-        it = Interp(ctx.hier, call_hook=hook2, globals={"Undefined": UNDEF}, strict_self_calls=True)
-        try:
-            outs = it.run_all(up, {"self_": ns, "arg": arg, "kwargs": dict(kw)})
-        except Unsupported as e:
-            raise AnalysisError("absint cannot interpret Parameters.update: %s -- R08.f cannot decide" % e)
-        n_f += 1
-        if len(outs) != 1 or outs[0].imprecise or outs[0].kind != "return":
-            raise AnalysisError("absint imprecise on Parameters.update (%s): %s -- R08.f cannot decide" % (desc, outs[0].notes[:2] if outs else "no outcome"))
-        given = set(kw) | (set(arg) if isinstance(arg, dict) else {k for k, _ in arg} if isinstance(arg, list) else set())
-        want = {k: r for k, r in (("a", ra), ("b", rb)) if k in given}
-        got = seen.get("refs")
-        if not isinstance(got, dict) or set(got) != set(want) or any(got[k] is not want[k] for k in want):
-            badf.append((desc, sorted(got) if isinstance(got, dict) else got, sorted(want)))
-    ctx.abstract_cases += n_f
-    if badf:
-        ctx.fail("R08.f", up, up.node, "`with obj.param.%s` remembers the links of %s, specification %s (a is linked, b has a pending asynchronous reference): the parameter overridden "
-                 "for the block gets its old plain value back on exit but not its link" % badf[0], key=up.qualname + "::restorer-refs",
-                 input="t = T(x=s.param.v); with t.param.update({'y': 1}, x=5): pass; s.v = 7 -> t.x stays stale")
-    else:
-        ctx.ok("R08.f", up, up.node, "%d call forms (keywords, dict, dict+keywords, pairs, pairs+keywords): the restorer receives the reference of every given linked parameter" % n_f)
+    update_restorer_refs(ctx, "R08.f")
 
     from checks.shared import flush_model
     flush_model(ctx, "R08.h")
